@@ -1042,10 +1042,89 @@ example : replaceRootReasons (.doc [("newRoot", .doc [("x", .str "$a"), ("y", .i
     (specReplaceRootStage (.doc [("newRoot", .doc [("x", .str "$a"), ("y", .int 1)])]) sample).isSome
       = true := by decide +kernel
 
+/-! ### `$bucket` -/
+
+def bucketSpec : Val := .doc [("groupBy", .str "$a"), ("boundaries", .arr [.int 0, .int 5, .int 10]),
+  ("default", .str "other"),
+  ("output", .doc [("n", .doc [("$sum", .int 1)]), ("ids", .doc [("$push", .str "$_id")])])]
+
+def d4 : Val := .doc [("_id", .int 4)]
+
+/-- **bucket_eq_spec (partial).** `$bucket` answers what MongoDB defines: every document goes to
+    the bucket `_id: bᵢ` with `bᵢ ≤ groupBy < bᵢ₊₁` (BSON order), to `default` when there is no such
+    boundary; one document per non-empty bucket in ascending `_id` order — the boundary order, the
+    default bucket where its `_id` sorts —, each with the `output` accumulators (those of `$group`;
+    `{count: {$sum: 1}}` when not given) folded over its documents in input order.  Domain
+    `bucketReasons = []`: numeric strictly ascending boundaries, `groupBy` a field path whose values
+    are numbers or missing, a default that is a number outside `[b₀, bₙ)`, a string or a naive
+    date, accumulators inside the `$group` domain.  Outside it, by name: the findings
+    bucketcrosstype, bucketboolnum, bucketdefaulttype, bucketdupbounds, bucketdefaultinside,
+    bucketgroupbyconst and the scope limits bucketexprstrict, keyscope, nospec (the stage FAILS on
+    a document without bucket when there is no default: the oracle is silent there). -/
+theorem bucket_eq_spec_partial (opts : Val) (docs s : List Val)
+    (hD : bucketReasons opts docs = []) (hs : specBucketStage opts docs = some s) :
+    Pipe.bucketStage opts docs = .ok s :=
+  Pipe.Proofs.bucket_eq_spec opts docs s hD hs
+
+example : bucketReasons bucketSpec [d0, d1, d2, d4] = [] ∧
+    optDocsAre (specBucketStage bucketSpec [d0, d1, d2, d4])
+      [.doc [("n", .int 1), ("ids", .arr [.int 2]), ("_id", .int 0)],
+       .doc [("n", .int 2), ("ids", .arr [.int 0, .int 1]), ("_id", .int 5)],
+       .doc [("n", .int 1), ("ids", .arr [.int 4]), ("_id", .str "other")]] = true := by
+  decide +kernel
+
+/-- a numeric default below the lowest boundary comes first; without `output` the buckets are
+    counted; the classes outside the domain are told by name -/
+example :
+    bucketReasons (.doc [("groupBy", .str "$a"), ("boundaries", .arr [.int 3, .dbl 13 1, .int 10]),
+      ("default", .int (-1))]) [d0, d1, d2, d4] = [] ∧
+    optDocsAre (specBucketStage (.doc [("groupBy", .str "$a"),
+      ("boundaries", .arr [.int 3, .dbl 13 1, .int 10]), ("default", .int (-1))]) [d0, d1, d2, d4])
+      [.doc [("count", .int 2), ("_id", .int (-1))], .doc [("count", .int 1), ("_id", .int 3)],
+       .doc [("count", .int 1), ("_id", .dbl 13 1)]] = true ∧
+    bucketReasons bucketSpec [d3] = ["bucketcrosstype"] ∧
+    bucketReasons bucketSpec [.doc [("a", .bool true)]] = ["bucketboolnum"] ∧
+    bucketReasons (.doc [("groupBy", .str "$a"), ("boundaries", .arr [.int 0, .int 5]),
+      ("default", .null)]) [d0] = ["bucketdefaulttype"] ∧
+    bucketReasons (.doc [("groupBy", .str "$a"), ("boundaries", .arr [.int 0, .int 5, .int 5]),
+      ("default", .str "o")]) [d0] = ["bucketdupbounds"] ∧
+    bucketReasons (.doc [("groupBy", .str "$a"), ("boundaries", .arr [.int 0, .int 5]),
+      ("default", .int 3)]) [d0] = ["bucketdefaultinside"] ∧
+    bucketReasons (.doc [("groupBy", .int 3), ("boundaries", .arr [.int 0, .int 5])]) [d0]
+      = ["bucketgroupbyconst"] ∧
+    bucketReasons (.doc [("groupBy", .doc [("$add", .arr [.str "$a", .int 1])]),
+      ("boundaries", .arr [.int 0, .int 50])]) [d0] = ["bucketexprstrict"] ∧
+    -- no default and a document outside every bucket: the oracle is silent
+    (specBucketStage (.doc [("groupBy", .str "$a"), ("boundaries", .arr [.int 0, .int 5])]) [d1]).isNone
+      = true := by
+  decide +kernel
+
+/-- **bucket_no_branch_fails.** Where the oracle is silent for want of a bucket — some document's
+    `groupBy` value lies outside every `[bᵢ, bᵢ₊₁)` and there is no default: MongoDB fails with
+    "could not find a matching branch" — the code fails too (OperationFailure), provided the
+    `groupBy` values are inside the domain (a field path, numbers or missing). -/
+theorem bucket_no_branch_fails (opts : Val) (a : BucketArgs) (docs : List Val)
+    (ha : bucketArgs opts = some a) (hform : ∃ s, a.groupBy = .str s)
+    (htags : exprTags a.groupBy docs = [])
+    (hvals : ∀ d ∈ docs, ∃ r, exprValue a.groupBy d = some r ∧ bucketValueReasons r = [])
+    (hk : specBucketKeyed a docs = none) :
+    Pipe.bucketStage opts docs = .error .opFail :=
+  Pipe.Proofs.bucket_no_branch opts a docs ha hform htags hvals hk
+
+example : (match bucketArgs (.doc [("groupBy", .str "$a"), ("boundaries", .arr [.int 0, .int 5])]) with
+    | some a => (match a.groupBy with | .str _ => true | _ => false) &&
+        (exprTags a.groupBy [d2, d1]).isEmpty &&
+        [d2, d1].all (fun d => match exprValue a.groupBy d with
+          | some r => (bucketValueReasons r).isEmpty | none => false) &&
+        (specBucketKeyed a [d2, d1]).isNone
+    | none => false) = true ∧
+    failsWith (Pipe.bucketStage (.doc [("groupBy", .str "$a"), ("boundaries", .arr [.int 0, .int 5])])
+      [d2, d1]) .opFail = true := by decide +kernel
+
 /-! ### every stage, pipelines, `$facet` -/
 
 /-- **stageX_eq_spec (partial).** `stage_eq_spec_partial` with the extended oracle and domain:
-    twelve stage kinds instead of seven. -/
+    thirteen stage kinds (`$bucket` with its oracle `specBucketStage`) instead of seven. -/
 theorem stageX_eq_spec_partial (db : Pipe.Db) (op : String) (opts : Val) (docs s : List Val)
     (hD : stageReasonsX db op opts docs = []) (hs : specStageX db op opts docs = some s) :
     Pipe.simpleStage db op opts docs = .ok s :=
@@ -1054,17 +1133,19 @@ theorem stageX_eq_spec_partial (db : Pipe.Db) (op : String) (opts : Val) (docs s
 example : stageReasonsX db "$group" groupSpec sample = [] ∧
     (specStageX db "$group" groupSpec sample).isSome = true ∧
     stageReasonsX db "$set" addSpec [d0, d2] = [] ∧
-    (specStageX db "$set" addSpec [d0, d2]).isSome = true := by decide +kernel
+    (specStageX db "$set" addSpec [d0, d2]).isSome = true ∧
+    stageReasonsX db "$bucket" bucketSpec [d0, d1, d2, d4] = [] ∧
+    (specStageX db "$bucket" bucketSpec [d0, d1, d2, d4]).isSome = true := by decide +kernel
 
 /-- the extension is conservative: on the other stage kinds nothing changes -/
 theorem stageX_extends (db : Pipe.Db) (op : String) (opts : Val) (docs : List Val)
-    (h : ["$group", "$lookup", "$addFields", "$set", "$replaceRoot"].contains op = false) :
+    (h : ["$group", "$lookup", "$addFields", "$set", "$replaceRoot", "$bucket"].contains op = false) :
     specStageX db op opts docs = specStage op opts docs ∧
     stageReasonsX db op opts docs = stageReasons op opts docs := by
   simp only [List.contains_cons, List.contains_nil, Bool.or_false, Bool.or_eq_false_iff,
     beq_eq_false_iff_ne, ne_eq] at h
-  obtain ⟨h1, h2, h3, h4, h5⟩ := h
-  simp [specStageX, stageReasonsX, h1, h2, h3, h4, h5]
+  obtain ⟨h1, h2, h3, h4, h5, h6⟩ := h
+  simp [specStageX, stageReasonsX, h1, h2, h3, h4, h5, h6]
 
 /-- … and for the verdict of the extended oracle -/
 theorem pipelineXV_eq_spec_partial (db : Pipe.Db) (p docs : List Val) (v : Verdict)
@@ -1097,6 +1178,15 @@ theorem pipelineX_eq_spec_partial (db : Pipe.Db) (p docs s : List Val)
 
 example : inDX db pipeX sample = true ∧ optDocsAre (specPipelineX db pipeX sample)
     [.doc [("n", .int 2), ("m", .int 2), ("ids", .arr [.int 0, .int 2]), ("_id", .int 1)]] = true := by
+  decide +kernel
+
+/-- … with a `$bucket` stage between others -/
+example : inDX db [.doc [("$match", .doc [("a", .doc [("$gt", .int 1)])])], .doc [("$bucket", bucketSpec)],
+      .doc [("$sort", .doc [("n", .int (-1))])], .doc [("$limit", .int 1)]] sample = true ∧
+    optDocsAre (specPipelineX db [.doc [("$match", .doc [("a", .doc [("$gt", .int 1)])])],
+      .doc [("$bucket", bucketSpec)], .doc [("$sort", .doc [("n", .int (-1))])],
+      .doc [("$limit", .int 1)]] sample)
+    [.doc [("n", .int 2), ("ids", .arr [.int 0, .int 1]), ("_id", .int 5)]] = true := by
   decide +kernel
 
 /-- **facet_eq_spec.** `$facet` answers ONE document that maps each name to the oracle's output of
